@@ -73,7 +73,7 @@ def run(tier):
         if other != "none":
             cfg["args"][d - 1][other] = [e]
         for x in (a, a2, b, d):
-            cfg["args"][x - 1]["cspell"] = g.r.choice([0, 0, 1, 2])
+            cfg["args"][x - 1]["cspell"] = g.r.choice([0, 0, 1, 2, 3])
         use = lambda i: [i, []] if cfg["args"][i - 1]["kind"] == "flag" else [i, [str(g.r.randint(0, 9))]]
         acts = []
         orders = [[a, b, cc], [b, a, cc], [a, cc, b], [a, a2, b, cc], [a, b, a2, cc], [a, a2, cc], [a, cc, a2, cc], [a, a2], [b, cc], [cc, b], [a, cc], [cc, a]]
